@@ -17,7 +17,8 @@ CLAIM = dict(
           'level, returns (carry, concatenated outputs) and rejects inconsistent lengths; accumulate_repeated steps before accumulating from a zero accumulator '
           'and returns the accumulator; digital_filter_initialization normalises the initial weight and both weight vectors by the same total = 1 + (number of '
           'accumulated branches)·Σw and runs the backward branch on the time-reversed equation with the same filters and dt; TimeReversedImExODE negates both '
-          'tendencies and the solve step. Also decided: configuration shortcuts of trajectory_from_step (arms that bypass the outer scan) still select their frames by start_with_input. Does not decide numerical equality with a Python loop or of gradients.'),
+          'tendencies and the solve step. Also decided: configuration shortcuts of trajectory_from_step (arms that bypass the outer scan) still select their frames by start_with_input. Does not decide numerical equality with a Python loop or of gradients.'
+          " Later additions: C14.6 also decides the Lanczos weights (window sinc(n/(N+1)) × low-pass sinc(n·span/(τc·N)), n = 1…N, N rounded) against Lynch & Huang's formula; C14.9 shared arrays."),
     note=('Trusted: lax.scan semantics (carry threading, stacked outputs, `length`), jax.tree_util.tree_map leaf-wise application, jax.checkpoint being value-'
           'transparent. Roles are identified by data flow (parameter positions, call results), not by variable names.'),
     technique='abstract interpretation of the closures to terms + structural matching of scan wiring, guard folding',
